@@ -2,8 +2,11 @@
 """adopt_seed.py <ID> <n> "<what it needs to manifest>": copy a verified seeded change from /tmp/seed-out into /verif/seeded/<ID>-<n>/."""
 import json, os, shutil, sys, glob
 pid, n, needs = sys.argv[1], sys.argv[2], sys.argv[3]
+# second-round seeds live in /tmp/seed-out/<ID>r2 and are adopted as <ID>-3 and <ID>-4
+round2 = pid.endswith("r2")
+prop = pid[:3]
 src = f"/tmp/seed-out/{pid}"
-dst = f"/verif/seeded/{pid}-{n}"
+dst = f"/verif/seeded/{prop}-{int(n) + 2}" if round2 else f"/verif/seeded/{pid}-{n}"
 os.makedirs(dst, exist_ok=True)
 ver = open(f"{src}/verify{n}.txt").read().strip()
 assert "382 passed 0 failed" in ver and "with change: 0;" not in ver and "without: 0" in ver, ver
@@ -13,7 +16,7 @@ for f in glob.glob(f"{src}/demo{n}.*"):
 if os.path.exists(f"{src}/notes{n}.md"):
     shutil.copy(f"{src}/notes{n}.md", f"{dst}/notes.md")
 meta = {
-    "property": pid,
+    "property": prop,
     "origin": "independent sub-agent given only the property text and a scratch worktree (tools/seed_prompt.py)",
     "needs_to_manifest": needs,
     "verified": {
